@@ -32,7 +32,7 @@
   same time the *fuel* of the model: "out of fuel" and "StackOverflow" are the
   same outcome, the machine is total by structural recursion on `h`, and fuel
   monotonicity is `more headroom never changes an outcome other than
-  StackOverflow` (`RsjProofs/Thunk.lean: force_mono`).
+  StackOverflow` (`RsjProofs/Thunk.lean: force_mono_le`).
 
   Garbage collection is a no-op request on this abstraction: a collection
   (`Program::gc`, `maybe_gc`) only frees objects unreachable from the roots,
